@@ -18,7 +18,7 @@ import importlib
 
 from pvc.contract import Contract
 from pvc.explore import Raised
-from pvc.sym import And, Or, Not, Implies, Iff, eq, lt, le, is_sym, PathAbort, Unsupported, BudgetExceeded
+from pvc.sym import And, Not, eq, le, PathAbort, Unsupported, BudgetExceeded
 
 
 # =====================================================================================
@@ -282,7 +282,7 @@ class _Hist:
 
 
 _SENDERS = ("s_loc", "r_snd")          # a computation of the agent itself / of another agent
-_DESTS = ("k_reg", "e_late", "b_late")  # registered from the start / registered by an operation
+# destinations: "k_reg" is registered from the start, "e_late" / "b_late" are registered by an operation of the history
 
 
 class _MsgWorld:
@@ -468,13 +468,12 @@ def _shapes_messaging(tier):
          dict(n_ops=3, prio="sym", senders=["r_snd"], late=["b_late"]),           # ~630
          dict(n_ops=3, prio="sym_hi")]                                            # ~1 240
     if tier == "thorough":
-        s += (_split(dict(n_ops=4, prio="sym"), 1)
-              + _split(dict(n_ops=5, prio="sym_hi", senders=["s_loc"]), 1)
-              + [dict(n_ops=3, prio="sym"),
-                 dict(n_ops=4, prio="sym_hi", senders=["s_loc"]),
-                 dict(n_ops=3, prio="mixed", senders=["r_snd"], late=["b_late"]),
-                 dict(n_ops=4, prio="sym", senders=["r_snd"], late=["b_late"]),
-                 dict(n_ops=4, prio="mixed", senders=["s_loc"], late=["b_late"]),
+        s += (_split(dict(n_ops=5, prio="sym_hi", senders=["s_loc"]), 1)                  # ~20 000 paths in all
+              + [dict(n_ops=3, prio="sym"),                                              # ~3 800
+                 dict(n_ops=4, prio="sym", senders=["s_loc"]),                           # ~8 400
+                 dict(n_ops=4, prio="sym", senders=["r_snd"], late=["b_late"]),          # ~8 900
+                 dict(n_ops=4, prio="sym_hi"),
+                 dict(n_ops=3, prio="mixed", senders=["r_snd"], late=["b_late"]),        # ~2 600
                  dict(n_ops=3, prio="sym", late=["e_late", "b_late"]),
                  dict(n_ops=4, prio="sym_hi", senders=["s_loc"], unregister=True)])
     return s
@@ -1218,7 +1217,7 @@ class _DOps:
                 cb = w.make_cb(x, "agent", "*")
                 s["fns"][cb.cbid] = cb
             if any(k[0] == x and k[1] == "agent" and k[2] != "*" and v.get("lapsed") and not v["active"] for k, v in w.subs.items()):
-                w.flag(x, "agent", "*", "resubscribed-after-an-unsubscription")
+                w.flag(x, "agent", "*", "subscribed-to-all-agents-after-an-unsubscription")
             w.step(x, lambda: d.subscribe_all_agents(cb), "%s subscribes to all agents (%s)" % (x, op[2]), "subscribe_all_agents")
             s["active"] = True
             if cb is not None:
